@@ -1,10 +1,10 @@
 CONSTANTS
   Literals <- LitQuick
   ExploreOps <- ExploreCore
-  ProbeOps <- None
-  Depth = 2
+  ProbeOps <- ProbeQuick
+  Depth = 1
   GetterCap = 4
-  Emit = FALSE
+  Emit = TRUE
   SetLengthGuard = TRUE
 INIT Init
 NEXT Next
